@@ -17,8 +17,8 @@ from harness.common import *
 import re, struct
 
 FUNCTIONAL = True
-LEVEL_TEXT = ("Lean theorems: for every mutator the transcribed code path (ALG: _validate_slice, _insert/_overwrite/_delete, _ror_msb0/_rol_msb0 as slice+delete+insert, reverse's two branches, the set/invert loops and set's range fast path, _setitem_int/_setitem_slice, _replace's collect-and-rebuild, byteswap's pattern loop over _reversebytes, _ilshift/_irshift, _imul) equals a one-line list expression (SPEC) for all contents and arguments outside eight decidable known-deviation regions; frame (bits outside [start,end) unchanged) and length theorems per range operation; partial-prefix theorems for set/invert over iterables; rol/ror inverse, reverse and byteswap involutive; replace returns the number of selected matches; run_eq over arbitrary operation histories by induction. Correspondence: exhaustive single-operation sweeps on small contents x argument tuples in and beyond range + random histories of 1-12 operations on BitArray/BitStream.")
-LEVEL_NOTE = ("Trusted: Lean kernel (+propext, Classical.choice, Quot.sound); bitarray's C item/slice assignment and deletion are modelled as Python list semantics and its search as 'all occurrences' (tied by the correspondence and by the oracle, which uses CPython lists); the struct-format grammar of byteswap is a shared definition of SPEC and ALG; BitStream positions are out of scope (C06). Eight known deviations of the pinned tree are transcribed in ALG and excluded from the equalities by named regions (see known_findings.d/C03.json).")
+LEVEL_TEXT = ("Lean theorems: for every mutator the transcribed code path (ALG: _validate_slice, _insert/_overwrite/_delete, _ror_msb0/_rol_msb0 as slice+delete+insert, reverse's two branches, the set/invert loops and set's range fast path, _setitem_int/_setitem_slice, _replace's collect-and-rebuild, byteswap's pattern loop over _reversebytes, _ilshift/_irshift, _imul) equals a one-line list expression (SPEC) for all contents and arguments outside six decidable known-deviation regions; frame (bits outside [start,end) unchanged) and length theorems per range operation; partial-prefix theorems for set/invert over iterables; rol/ror inverse, reverse and byteswap involutive; replace returns the number of selected matches; run_eq over arbitrary operation histories by induction. Correspondence: exhaustive single-operation sweeps on small contents x argument tuples in and beyond range + random histories of 1-12 operations on BitArray/BitStream.")
+LEVEL_NOTE = ("Trusted: Lean kernel (+propext, Classical.choice, Quot.sound); bitarray's C item/slice assignment and deletion are modelled as Python list semantics and its search as 'all occurrences' (tied by the correspondence and by the oracle, which uses CPython lists); the struct-format grammar of byteswap is a shared definition of SPEC and ALG; BitStream positions are out of scope (C06). The known deviations of the current tree are transcribed in ALG and excluded from the equalities by named regions (see known_findings.d/C03.json).")
 TECHNIQUE = "Lean 4 proof (ALG = SPEC per mutator, frame/length/involution lemmas, induction over histories) + exhaustive small-domain and random-history correspondence"
 NOT_YET_PROVED = []
 
@@ -459,12 +459,6 @@ def _dev_step(prev: str, tok: str):
     if op in ("insert", "overwrite"):
         if len(opbits(t[1])) == 0 and valid_pos(int(t[2])) is None:
             return "emptyOperandBadPos"
-        if op == "overwrite" and _strip_kind(t[1]) == "@" and n != 0 and valid_pos(int(t[2])) not in (None, 0):
-            return "overwriteSelfNonzero"
-    if op in ("rol", "ror"):
-        r = valid_range(_opt(t[2]), _opt(t[3]))
-        if n != 0 and int(t[1]) >= 0 and r is not None and r[0] == r[1]:
-            return "rotEmptyRange"
     if op == "set":
         if t[2] == "None" and n == 0:
             return "setAllEmpty"
@@ -480,9 +474,6 @@ def _dev_step(prev: str, tok: str):
             s0, e0, st = slice(a, b, c).indices(n)
             if _range_as_slice_differs(n, s0, e0, st):
                 return "setSliceIntStepRegion"
-    if op == "replace" and t[5] == "0":
-        if len(opbits(t[1])) == 0 or valid_range(_opt(t[3]), _opt(t[4])) is None:
-            return "replaceCountZeroUnchecked"
     if op == "byteswap" and t[4] == "0":
         r = valid_range(_opt(t[2]), _opt(t[3]))
         if r is not None:
@@ -510,8 +501,8 @@ def _region(name):
 
 
 REGIONS = {name: _region(name) for name in (
-    "byteswapNoRepeatPastEnd", "rotEmptyRange", "overwriteSelfNonzero", "setRangeAsSlice", "setSliceIntNegStep",
-    "setSliceIntStepRegion", "setAllEmpty", "emptyOperandBadPos", "replaceCountZeroUnchecked")}
+    "byteswapNoRepeatPastEnd", "setRangeAsSlice", "setSliceIntNegStep",
+    "setSliceIntStepRegion", "setAllEmpty", "emptyOperandBadPos")}
 
 
 def nontrivial(line):
